@@ -58,6 +58,7 @@ Record llayer := LLayer {
   ll_rel : rel;                     (* ghost: the directory as written in layercontents.plist *)
   ll_dir : string;                  (* Layer.path: its last component *)
   ll_glyphs : list (string * N);    (* glyph name, glif token *)
+  ll_files : list rel;              (* the glif file of each glyph, as in contents.plist *)
   ll_info : N;                      (* layerinfo.plist token, 0 = none *)
 }.
 Record lfont := LFont {
@@ -71,14 +72,18 @@ Record lfont := LFont {
 }.
 Definition empty_font : lfont := LFont 0 (0%N, ONone) (0%N, None) 0 0 0 [] [] [].
 Definition placeholder : llayer :=
-  LLayer DEFAULT_LAYER_NAME [Normal DEFAULT_GLYPHS_DIRNAME] DEFAULT_GLYPHS_DIRNAME [] 0.
+  LLayer DEFAULT_LAYER_NAME [Normal DEFAULT_GLYPHS_DIRNAME] DEFAULT_GLYPHS_DIRNAME [] [] 0.
 Definition is_default (l : llayer) : bool := bool_decide (ll_dir l = DEFAULT_GLYPHS_DIRNAME).
 
-Inductive layer_lerr := LMissingContents | LParseContents | LGlyph | LParseLayerInfo.
+Inductive layer_lerr :=
+| LMissingContents | LParseContents | LInvalidGlyphFileName | LDuplicateGlyphFileName | LGlyph | LParseLayerInfo.
 Inductive lerr :=
 | AccessUfoDir | UfoNotADir | MissingMetaInfoFile | ParsePlist (file : string)
 | LibFileMustBeDictionary | FontInfoErr | InvalidGroupsL | FeatureFileL
-| MissingLayerContentsFile | LayerL (name : string) (e : layer_lerr) | MissingDefaultLayer
+| MissingLayerContentsFile
+| InvalidLayerDirectory (name : string) | DuplicateLayerName (name : string) | DuplicateLayerDirectory
+| ReservedLayerName
+| LayerL (name : string) (e : layer_lerr) | MissingDefaultLayer
 | DataStoreL | ImagesStoreL
 | Legacy          (* format version 1 or 2: upconversion, outside this model *)
 | FileNamePanic.  (* [path.file_name().unwrap()] on a layer directory ending in [..] *)
@@ -131,6 +136,34 @@ Definition FEATURES_FILE := "features.fea".
 Definition LAYER_CONTENTS_FILE := "layercontents.plist".
 
 (** * Layers *)
+(** [plain_name]: the path is a single normal component *)
+Definition plain_name (r : rel) : option string := match r with [Normal s] => Some s | _ => None end.
+(** the loop of [LayerContents::load] over ALL entries, in file order, before any filtering *)
+Fixpoint validate_layers (seen_n seen_d : list string) (ls : list (string * rel)) : option lerr :=
+  match ls with
+  | [] => None
+  | nr :: rest =>
+      match plain_name nr.2 with
+      | None => Some (InvalidLayerDirectory nr.1)
+      | Some d =>
+          if bool_decide (nr.1 ∈ seen_n) then Some (DuplicateLayerName nr.1)
+          else if bool_decide (d ∈ seen_d) then Some DuplicateLayerDirectory
+          else if bool_decide (nr.1 = DEFAULT_LAYER_NAME) && negb (bool_decide (d = DEFAULT_GLYPHS_DIRNAME))
+               then Some ReservedLayerName
+          else validate_layers (nr.1 :: seen_n) (d :: seen_d) rest
+      end
+  end.
+(** the loop of [Layer::load_impl] over contents.plist, in glyph-name order *)
+Fixpoint validate_glifs (seen : list string) (gs : list (string * rel)) : option layer_lerr :=
+  match gs with
+  | [] => None
+  | g :: rest =>
+      match plain_name g.2 with
+      | None => Some LInvalidGlyphFileName
+      | Some fn => if bool_decide (fn ∈ seen) then Some LDuplicateGlyphFileName
+                   else validate_glifs (fn :: seen) rest
+      end
+  end.
 (** [Layer::load_impl] *)
 Definition load_layer (t : path) (nr : string * rel) : M llayer :=
   let ldir := lex t nr.2 in
@@ -139,6 +172,7 @@ Definition load_layer (t : path) (nr : string * rel) : M llayer :=
   bind (m_read (ldir ++ [CONTENTS_FILE])) (λ c,
   match c with
   | Some (LContents gs) =>
+      match validate_glifs [] gs with Some e => fail (LayerL nr.1 e) | None =>
       bind (mapM (λ g, bind (m_read (lex ldir g.2)) (λ c,
                          match c with Some (LGlif tok) => ret (g.1, tok) | _ => fail (LayerL nr.1 LGlyph) end)) gs) (λ glyphs,
       bind (m_exists (ldir ++ [LAYER_INFO_FILE])) (λ exi,
@@ -146,9 +180,10 @@ Definition load_layer (t : path) (nr : string * rel) : M llayer :=
                              match c with Some (LLayerInfo tok) => ret tok | _ => fail (LayerL nr.1 LParseLayerInfo) end)
             else ret 0%N) (λ info,
       match file_name_of t nr.2 with
-      | Some d => ret (LLayer nr.1 nr.2 d glyphs info)
+      | Some d => ret (LLayer nr.1 nr.2 d glyphs (map snd gs) info)
       | None => fail FileNamePanic
       end)))
+      end
   | _ => fail (LayerL nr.1 LParseContents)
   end)).
 
@@ -173,11 +208,13 @@ Definition load_layers (fl : lfilter) (t : path) : M (list llayer) :=
   bind (m_read lc) (λ c,
   match c with
   | Some (LLayerContents ls) =>
+      match validate_layers [] [] ls with Some e => fail e | None =>
       bind (mapM (load_layer t) (filter (λ nr, should_load fl nr.1 nr.2) ls)) (λ layers,
       match default_first (with_placeholder fl layers) with
       | Some r => ret r
       | None => fail MissingDefaultLayer
       end)
+      end
   | _ => fail (ParsePlist LAYER_CONTENTS_FILE)
   end))).
 
@@ -268,7 +305,7 @@ Definition ld_sem (r : request) (t : path) (s : ldstep) (f : lfont) : M lfont :=
                  | inr (i, l) => ret (set_lib (set_info f i) l)
                  | inl e => fail e
                  end)
-      else ret f)
+      else ret (set_lib f ((lf_lib f).1, ONone)))   (* lib.remove(public.objectLibs), unconditionally *)
   | LdGroups => bind (guarded (r_groups r) (t ++ [GROUPS_FILE]) 0%N parse_groups) (λ v, ret (set_groups f v))
   | LdKerning => bind (guarded (r_kerning r) (t ++ [KERNING_FILE]) 0%N parse_kerning) (λ v, ret (set_kerning f v))
   | LdFeatures => bind (guarded (r_features r) (t ++ [FEATURES_FILE]) 0%N parse_features) (λ v, ret (set_features f v))
@@ -305,6 +342,14 @@ Definition restrict (r : request) (f : lfont) : lfont :=
         (if r_data r then lf_data f else [])
         (if r_images r then lf_images f else []).
 
+(** every glif path of a loaded font is a single plain component (layer directories are, by
+    construction: [ll_dir] is one name) *)
+Definition loaded_safe (f : lfont) : Prop := Forall (λ l, Forall single_normal (ll_files l)) (lf_layers f).
+(** [fa] is a save-side abstraction of the loaded font [f]: same layer directories, same glif paths *)
+Definition abstracts (fa : font_abs) (f : lfont) : Prop :=
+  map (λ l, (la_dir l, map g_path (la_glifs l))) (fa_layers fa)
+  = map (λ l, ([Normal (ll_dir l)], ll_files l)) (lf_layers f).
+
 (** agreement of two file systems on what a run consulted *)
 Definition agree1 (m m' : lfs) (e : rd) : Prop :=
   match e with
@@ -331,16 +376,6 @@ Definition unrequested (r : request) (t : path) (m : lfs) (p : path) : Prop :=
   (r_images r = false ∧ under (t ++ [IMAGES_DIR]) p) ∨
   (∃ nr, nr ∈ layer_entries_of m t ∧ should_load (r_filter r) nr.1 nr.2 = false ∧ under (lex t nr.2) p).
 
-(** the directory of every default layer (last component [glyphs]) is written exactly [glyphs]
-    in layercontents.plist, not e.g. [./glyphs]: the complement is the class of finding F23 *)
-Definition default_plain (m : lfs) (t : path) : Prop :=
-  Forall (λ nr, file_name_of t nr.2 = Some DEFAULT_GLYPHS_DIRNAME → nr.2 = [Normal DEFAULT_GLYPHS_DIRNAME])
-         (layer_entries_of m t).
-Definition KnownClass_F23 (m : lfs) (t : path) : Prop := ¬ default_plain m t.
-Definition default_plainb (m : lfs) (t : path) : bool :=
-  forallb (λ nr, negb (bool_decide (file_name_of t nr.2 = Some DEFAULT_GLYPHS_DIRNAME))
-                 || bool_decide (nr.2 = [Normal DEFAULT_GLYPHS_DIRNAME])) (layer_entries_of m t).
-
 (** a UFO whose layer directories and glif paths are distinct plain names that do not collide
     with the files of other parts *)
 Definition ufo_reserved : list string :=
@@ -356,8 +391,11 @@ Definition wf_ufo (m : lfs) (t : path) : Prop :=
 (** * Effect-order skeleton (compared with the source by Anchors/AnchorsOK_C17.v) *)
 Definition guard_of (s : ldstep) : string :=
   match s with
-  | LdLib => "request.lib" | LdGroups => "request.groups" | LdKerning => "request.kerning"
-  | LdFeatures => "request.features" | LdData => "request.data" | LdImages => "request.images"
+  | LdLib => "request.lib && lib_path.exists()" | LdGroups => "request.groups && groups_path.exists()"
+  | LdKerning => "request.kerning && kerning_path.exists()"
+  | LdFeatures => "request.features && features_path.exists()"
+  | LdData => "request.data && path.join(DATA_DIR).exists()"
+  | LdImages => "request.images && path.join(IMAGES_DIR).exists()"
   | _ => ""
   end.
 Definition skel_ld (s : ldstep) : list (string * string) :=
@@ -374,7 +412,7 @@ Definition skel_ld (s : ldstep) : list (string * string) :=
   | LdData => [("guard", guard_of LdData); ("exists", DATA_DIR); ("open_store", DATA_DIR); ("err", "DataStore")]
   | LdImages => [("guard", guard_of LdImages); ("exists", IMAGES_DIR); ("open_store", IMAGES_DIR); ("err", "ImagesStore")]
   | LdUpconvert => [("err", "GroupsUpconversionFailure")]
-  | LdRobofab => [("guard", "format_version==V1"); ("exists", LIB_FILE);
+  | LdRobofab => [("guard", "meta.format_version == FormatVersion::V1 && lib_path.exists()"); ("exists", LIB_FILE);
                   ("call", "upconvert_ufov1_robofab_data " +:+ LIB_FILE)]
   end.
 Definition load_skeleton : list (string * string) := concat (map skel_ld load_steps).
@@ -385,14 +423,18 @@ Definition load_groups_skeleton := [("read_plist", ""); ("err", "ParsePlist"); (
 Definition load_kerning_skeleton := [("read_plist", ""); ("err", "ParsePlist")].
 Definition load_features_skeleton := [("read", ""); ("err", "FeatureFile")].
 Definition load_layer_set_skeleton :=
-  [("guard", "format_version==V3"); ("exists", LAYER_CONTENTS_FILE); ("err", "MissingLayerContentsFile");
+  [("guard", "meta.format_version == FormatVersion::V3 && !layercontents_path.exists()"); ("exists", LAYER_CONTENTS_FILE); ("err", "MissingLayerContentsFile");
    ("call", "LayerContents::load")].
 Definition layercontents_load_skeleton :=
   [("exists", LAYER_CONTENTS_FILE); ("read_plist", LAYER_CONTENTS_FILE); ("err", "ParsePlist");
+   (* the validation loop over all entries comes BEFORE the filter *)
+   ("err", "InvalidLayerDirectory"); ("err", "DuplicateLayerName"); ("err", "DuplicateLayerDirectory");
+   ("err", "ReservedLayerName");
    ("guard", "filter.should_load"); ("call", "Layer::load_impl <path>"); ("err", "Layer");
-   ("guard", "!filter.includes_default_layer"); ("err", "MissingDefaultLayer")].
+   ("guard", "!filter.includes_default_layer() && !layers.iter().any(Layer::is_default)"); ("err", "MissingDefaultLayer")].
 Definition layer_load_skeleton :=
   [("exists", CONTENTS_FILE); ("err", "MissingContentsFile"); ("read_plist", CONTENTS_FILE); ("err", "ParsePlist");
+   ("err", "InvalidGlyphFileName"); ("err", "DuplicateGlyphFileName");
    ("call", "Glyph::load_with_names <glyph_path>"); ("err", "Glyph");
    ("exists", LAYER_INFO_FILE); ("call", "parse_layer_info " +:+ LAYER_INFO_FILE)].
 Definition parse_layer_info_skeleton := [("read_plist", ""); ("err", "ParsePlist")].
